@@ -1,7 +1,8 @@
-// C07 / C08: one-line delegations of the facade that the comparison twins call and that cannot be proved in place
-// (they call a PROVIDED method of a common/ trait through the facade impl, which Verus does not support, or wrap a
-// common/ iterator in a facade struct with a private field). ASSUMED to return what the delegate - proved in common/
-// (C02, C03, C09, C12) - returns. The bounded Kani facade harnesses of C02 / C03 exercise the parts() wrappers.
+// C07 / C08: facade functions the comparison twins call that are NOT proved: wrappers that slice a `str` by byte ranges
+// (IRI family parts()), wrapper iterators with a private field, Segment::as_pct_str (its delegate has the failing C19
+// precondition), generated accessors of the owned types. ASSUMED to return what the delegate - proved in common/
+// (C02, C03, C09, C12) - returns. The pure delegations `fn m(&self) { Trait::m(self) }` and uri::Authority::parts are
+// PROVED instead (contracts/deleg.vspec, R26). The bounded Kani facade harnesses of C02 / C03 exercise the parts() wrappers.
 verus! {
 pub assume_specification [crate::uri::Segment::as_pct_str] (s: &crate::uri::Segment) -> (r: &pct_str::PctStr)
     ensures pct_text(r) == bytes_of(s);
@@ -43,8 +44,6 @@ pub assume_specification [crate::uri::UriRefBuf::as_bytes] (s: &crate::uri::UriR
     ensures r@ == bytes_of(s);
 
 // Authority::parts (both families): typed sub-slices at the ranges of AuthorityImpl::parts (proved, C03)
-pub assume_specification [crate::uri::Authority::parts] (s: &crate::uri::Authority) -> (r: crate::uri::AuthorityParts<'_>)
-    ensures auth_shape(bytes_of(s), 0) ==> opt_text(r.user_info) == au_ui(bytes_of(s)) && bytes_of(r.host) == au_host(bytes_of(s)) && opt_text(r.port) == au_port(bytes_of(s));
 pub assume_specification [crate::iri::Authority::parts] (s: &crate::iri::Authority) -> (r: crate::iri::AuthorityParts<'_>)
     ensures auth_shape(bytes_of(s), 0) ==> opt_text(r.user_info) == au_ui(bytes_of(s)) && bytes_of(r.host) == au_host(bytes_of(s)) && opt_text(r.port) == au_port(bytes_of(s));
 // IriRef::parts / Iri::parts slice a `str` by byte ranges (no Verus model); their URI twins ARE proved (facade.vspec)
@@ -57,62 +56,6 @@ pub assume_specification [crate::iri::Iri::parts] (s: &crate::iri::Iri) -> (r: c
 
 // accessor delegations (RiRefImpl / RiImpl / AuthorityImpl / PathImpl methods proved for C02, C03, C12): stated so that a comparison
 // written with the accessors instead of parts() is decided rather than left undecided
-pub assume_specification [crate::uri::UriRef::authority] (s: &crate::uri::UriRef) -> (r: Option<&crate::uri::Authority>)
-    ensures ref_shape(bytes_of(s)) ==> opt_text(r) == r_auth(bytes_of(s));
-pub assume_specification [crate::uri::UriRef::path] (s: &crate::uri::UriRef) -> (r: &crate::uri::Path)
-    ensures ref_shape(bytes_of(s)) ==> bytes_of(r) == r_path(bytes_of(s));
-pub assume_specification [crate::uri::UriRef::query] (s: &crate::uri::UriRef) -> (r: Option<&crate::uri::Query>)
-    ensures ref_shape(bytes_of(s)) ==> opt_text(r) == r_query(bytes_of(s));
-pub assume_specification [crate::uri::UriRef::fragment] (s: &crate::uri::UriRef) -> (r: Option<&crate::uri::Fragment>)
-    ensures ref_shape(bytes_of(s)) ==> opt_text(r) == r_frag(bytes_of(s));
-pub assume_specification [crate::uri::Uri::authority] (s: &crate::uri::Uri) -> (r: Option<&crate::uri::Authority>)
-    ensures ref_shape(bytes_of(s)) ==> opt_text(r) == r_auth(bytes_of(s));
-pub assume_specification [crate::uri::Uri::path] (s: &crate::uri::Uri) -> (r: &crate::uri::Path)
-    ensures ref_shape(bytes_of(s)) ==> bytes_of(r) == r_path(bytes_of(s));
-pub assume_specification [crate::uri::Uri::query] (s: &crate::uri::Uri) -> (r: Option<&crate::uri::Query>)
-    ensures ref_shape(bytes_of(s)) ==> opt_text(r) == r_query(bytes_of(s));
-pub assume_specification [crate::uri::Uri::fragment] (s: &crate::uri::Uri) -> (r: Option<&crate::uri::Fragment>)
-    ensures ref_shape(bytes_of(s)) ==> opt_text(r) == r_frag(bytes_of(s));
-pub assume_specification [crate::uri::Uri::scheme] (s: &crate::uri::Uri) -> (r: &crate::uri::Scheme)
-    ensures ref_shape(bytes_of(s)) && x_has_sch(bytes_of(s)) ==> Some(bytes_of(r)) == r_scheme(bytes_of(s));
-pub assume_specification [crate::uri::Authority::user_info] (s: &crate::uri::Authority) -> (r: Option<&crate::uri::UserInfo>)
-    ensures auth_shape(bytes_of(s), 0) ==> opt_text(r) == au_ui(bytes_of(s));
-pub assume_specification [crate::uri::Authority::host] (s: &crate::uri::Authority) -> (r: &crate::uri::Host)
-    ensures auth_shape(bytes_of(s), 0) ==> bytes_of(r) == au_host(bytes_of(s));
-pub assume_specification [crate::uri::Authority::port] (s: &crate::uri::Authority) -> (r: Option<&crate::uri::Port>)
-    ensures auth_shape(bytes_of(s), 0) ==> opt_text(r) == au_port(bytes_of(s));
-pub assume_specification [crate::uri::Path::is_empty] (p: &crate::uri::Path) -> (r: bool)
-    ensures r == p_is_empty(bytes_of(p));
-pub assume_specification [crate::uri::Path::is_relative] (p: &crate::uri::Path) -> (r: bool)
-    ensures r == !p_is_abs(bytes_of(p));
-pub assume_specification [crate::iri::IriRef::authority] (s: &crate::iri::IriRef) -> (r: Option<&crate::iri::Authority>)
-    ensures ref_shape(bytes_of(s)) ==> opt_text(r) == r_auth(bytes_of(s));
-pub assume_specification [crate::iri::IriRef::path] (s: &crate::iri::IriRef) -> (r: &crate::iri::Path)
-    ensures ref_shape(bytes_of(s)) ==> bytes_of(r) == r_path(bytes_of(s));
-pub assume_specification [crate::iri::IriRef::query] (s: &crate::iri::IriRef) -> (r: Option<&crate::iri::Query>)
-    ensures ref_shape(bytes_of(s)) ==> opt_text(r) == r_query(bytes_of(s));
-pub assume_specification [crate::iri::IriRef::fragment] (s: &crate::iri::IriRef) -> (r: Option<&crate::iri::Fragment>)
-    ensures ref_shape(bytes_of(s)) ==> opt_text(r) == r_frag(bytes_of(s));
-pub assume_specification [crate::iri::Iri::authority] (s: &crate::iri::Iri) -> (r: Option<&crate::iri::Authority>)
-    ensures ref_shape(bytes_of(s)) ==> opt_text(r) == r_auth(bytes_of(s));
-pub assume_specification [crate::iri::Iri::path] (s: &crate::iri::Iri) -> (r: &crate::iri::Path)
-    ensures ref_shape(bytes_of(s)) ==> bytes_of(r) == r_path(bytes_of(s));
-pub assume_specification [crate::iri::Iri::query] (s: &crate::iri::Iri) -> (r: Option<&crate::iri::Query>)
-    ensures ref_shape(bytes_of(s)) ==> opt_text(r) == r_query(bytes_of(s));
-pub assume_specification [crate::iri::Iri::fragment] (s: &crate::iri::Iri) -> (r: Option<&crate::iri::Fragment>)
-    ensures ref_shape(bytes_of(s)) ==> opt_text(r) == r_frag(bytes_of(s));
-pub assume_specification [crate::iri::Iri::scheme] (s: &crate::iri::Iri) -> (r: &crate::uri::Scheme)
-    ensures ref_shape(bytes_of(s)) && x_has_sch(bytes_of(s)) ==> Some(bytes_of(r)) == r_scheme(bytes_of(s));
-pub assume_specification [crate::iri::Authority::user_info] (s: &crate::iri::Authority) -> (r: Option<&crate::iri::UserInfo>)
-    ensures auth_shape(bytes_of(s), 0) ==> opt_text(r) == au_ui(bytes_of(s));
-pub assume_specification [crate::iri::Authority::host] (s: &crate::iri::Authority) -> (r: &crate::iri::Host)
-    ensures auth_shape(bytes_of(s), 0) ==> bytes_of(r) == au_host(bytes_of(s));
-pub assume_specification [crate::iri::Authority::port] (s: &crate::iri::Authority) -> (r: Option<&crate::uri::Port>)
-    ensures auth_shape(bytes_of(s), 0) ==> opt_text(r) == au_port(bytes_of(s));
-pub assume_specification [crate::iri::Path::is_empty] (p: &crate::iri::Path) -> (r: bool)
-    ensures r == p_is_empty(bytes_of(p));
-pub assume_specification [crate::iri::Path::is_relative] (p: &crate::iri::Path) -> (r: bool)
-    ensures r == !p_is_abs(bytes_of(p));
 
 // Path::is_absolute / segments / normalized_segments and the facade iterators wrapping SegmentsImpl / NormalizedSegmentsImpl
 // (both proved in common/: C12, C09). One ghost view for every iterator type: the texts of the items still to come.
@@ -130,10 +73,6 @@ pub struct ExUriSegments<'a>(crate::uri::Segments<'a>);
 pub struct ExIriSegments<'a>(crate::iri::Segments<'a>);
 /// texts of the items an iterator still has to yield (uninterpreted; pinned by the contracts of the constructors and of next)
 pub uninterp spec fn it_texts<I>(it: &I) -> Seq<Seq<u8>>;
-pub assume_specification [crate::uri::Path::is_absolute] (p: &crate::uri::Path) -> (r: bool)
-    ensures r == p_is_abs(bytes_of(p));
-pub assume_specification [crate::iri::Path::is_absolute] (p: &crate::iri::Path) -> (r: bool)
-    ensures r == p_is_abs(bytes_of(p));
 pub assume_specification<'a> [crate::uri::Path::normalized_segments] (p: &'a crate::uri::Path) -> (r: crate::uri::NormalizedSegments<'a>)
     ensures path_shape(bytes_of(p)) ==> it_texts(&r) == norm_segs(bytes_of(p));
 pub assume_specification<'a> [crate::uri::Path::segments] (p: &'a crate::uri::Path) -> (r: crate::uri::Segments<'a>)
